@@ -264,7 +264,7 @@ func addSeconds(t time.Time, n *big.Int) (time.Time, bool) {
 	if n.Cmp(lim) > 0 {
 		return maxTime, true
 	}
-	return t.Add(time.Duration(n.Int64()) * time.Second), false
+	return time.Unix(t.Unix()+n.Int64(), int64(t.Nanosecond())).UTC(), false
 }
 
 // wholeSeconds between two instants (floor), as a big.Int; zero if b is not after a.
@@ -342,6 +342,19 @@ type Models struct {
 	ParamChanged map[string]int // module -> block index of last successful update
 	LastUpdate   map[string]sdk.Msg
 	RejectedUpd  []sdk.Msg // UpdateParams messages that were executed by gov and failed / proposal failed
+	Settles      []SettleRec // releases/refunds the model computed for the last applied transaction
+}
+
+// SettleRec is what the model says one stream operation paid out.
+type SettleRec struct {
+	Key      string
+	Kind     string
+	Released *big.Int
+	Recv     *big.Int
+	Fee      *big.Int
+	Refund   *big.Int
+	Deposit  *big.Int // amount moved from the sender into escrow
+	Denom    string
 }
 
 func ratOfDec(s string) *big.Rat {
@@ -646,17 +659,20 @@ func (m *Models) Apply(msg sdk.Msg, now time.Time, blk int) {
 			Deposited: new(big.Int).Set(dep), Paid: new(big.Int), Fees: new(big.Int), Refunded: new(big.Int)}
 		st.Zero, st.ZeroOverflow = addSeconds(now, floorDiv(dep, rate))
 		m.Str.Streams[skey(x.Sender, x.Receiver)] = st
+		m.Settles = append(m.Settles, SettleRec{skey(x.Sender, x.Receiver), "create", new(big.Int), new(big.Int), new(big.Int), new(big.Int), new(big.Int).Set(dep), st.Denom})
 	case *streamtypes.MsgClaimStream:
 		if st := m.Str.Streams[skey(x.Sender, x.Receiver)]; st != nil {
-			m.settle(st, now)
+			rel, recv, fee := m.settle(st, now)
+			m.Settles = append(m.Settles, SettleRec{skey(x.Sender, x.Receiver), "claim", rel, recv, fee, new(big.Int), new(big.Int), st.Denom})
 		}
 	case *streamtypes.MsgTopUpDeposit:
 		if st := m.Str.Streams[skey(x.Sender, x.Receiver)]; st != nil {
 			amt := bigOf(x.Deposit.Amount)
 			ext := floorDiv(amt, st.Rate)
+			rel, recv, fee := new(big.Int), new(big.Int), new(big.Int)
 			if !st.ZeroOverflow && !now.Before(st.Zero) {
 				// expired: settle whatever is left, funding restarts now
-				m.settle(st, now)
+				rel, recv, fee = m.settle(st, now)
 				st.Last = now
 				st.Zero, st.ZeroOverflow = addSeconds(now, ext)
 			} else if !st.ZeroOverflow {
@@ -664,17 +680,20 @@ func (m *Models) Apply(msg sdk.Msg, now time.Time, blk int) {
 			}
 			st.Remaining.Add(st.Remaining, amt)
 			st.Deposited.Add(st.Deposited, amt)
+			m.Settles = append(m.Settles, SettleRec{skey(x.Sender, x.Receiver), "topup", rel, recv, fee, new(big.Int), new(big.Int).Set(amt), st.Denom})
 		}
 	case *streamtypes.MsgUpdateFlowRate:
 		if st := m.Str.Streams[skey(x.Sender, x.Receiver)]; st != nil {
-			m.settle(st, now)
+			rel, recv, fee := m.settle(st, now)
+			m.Settles = append(m.Settles, SettleRec{skey(x.Sender, x.Receiver), "update", rel, recv, fee, new(big.Int), new(big.Int), st.Denom})
 			st.Rate = big.NewInt(x.FlowRate)
 			st.Zero, st.ZeroOverflow = addSeconds(now, floorDiv(st.Remaining, st.Rate))
 		}
 	case *streamtypes.MsgCancelStream:
 		k := skey(x.Sender, x.Receiver)
 		if st := m.Str.Streams[k]; st != nil {
-			m.settle(st, now)
+			rel, recv, fee := m.settle(st, now)
+			m.Settles = append(m.Settles, SettleRec{k, "cancel", rel, recv, fee, new(big.Int).Set(st.Remaining), new(big.Int), st.Denom})
 			st.Refunded.Add(st.Refunded, st.Remaining)
 			st.Remaining = new(big.Int)
 			delete(m.Str.Streams, k)
@@ -743,6 +762,7 @@ func (m *Models) afterTx(w *World, tx *TxCtx) {
 			w.St.OpOutcome[k+"/fail"]++
 		}
 	}
+	m.Settles = nil
 	if tx.Resp.Code != 0 {
 		return
 	}
